@@ -23,6 +23,18 @@ pub fn replay_line(st: &mut Stats, line: &Value) {
     if ids(ont.modifier()) != u32_list(&line["modifier"]) || ids(ont.categories()) != u32_list(&line["categories"]) {
         d.push(format!("modifier()/categories() = {:?}/{:?}, expected {}/{}", ids(ont.modifier()), ids(ont.categories()), line["modifier"], line["categories"]));
     }
+    for t in arr(&line["terms"]) {
+        let id = as_u32(&t["id"]);
+        let Some(term) = ont.hpo(id) else { continue };
+        st.evaluations += 1;
+        let cats: Vec<u32> = term.categories().iter().map(|x| x.as_u32()).collect();
+        if cats != u32_list(&t["categories"]) {
+            d.push(format!("term {id}: categories() = {:?}, expected (ascending) {}", cats, t["categories"]));
+        }
+        if term.is_modifier() != t["is_modifier"].as_bool().unwrap() {
+            d.push(format!("term {id}: is_modifier() = {}, expected {}", term.is_modifier(), t["is_modifier"]));
+        }
+    }
     for s in arr(&line["sets"]) {
         st.evaluations += 1;
         let members = u32_list(&s["set"]);
